@@ -23,6 +23,9 @@ TEMPLATES = {
 "unresolved_name_with_equally_close_globals": "scale_x :: 1\nscale_y :: 2\nscale_z :: 3\nstart :: fn do\n    v := 4\n    pr(scale_w + v)\nend\n",
 "enum_case_missing_variants": "En :: enum\n    P,\n    Q,\n    R,\n    S,\nend\nstart :: fn do\n    e := En.P\n    case e do\n        P -> pr(1) end\n    end\nend\n",
 "multi_file_duplicate_names": None,
+# several DIFFERENT names each defined more than once in one module (one error per duplicate, in source order)
+"three_names_each_defined_twice": "width :: 1\nheight :: 2\nwidth :: 3\ndepth :: 5\nheight :: 4\ndepth :: 6\nstart :: fn do\n    pr(width)\nend\n",
+"duplicate_functions_blobs_and_values": "area :: fn do end\nPt :: blob { x: int }\nside :: 1\narea :: fn do end\nside :: 2\nPt :: blob { y: int }\nstart :: fn do\n    pr(side)\nend\n",
 # constrained type variables of a function type: several bad constraints, unused variables, and a valid one
 "function_type_two_unknown_constraints": "fc: fn<a: Blargh, b: Flurb, c: Zork> *a, *b, *c -> void : external\nstart :: fn do\n    pr(1)\nend\n",
 "function_type_bad_constraint_arity_and_unknown": "gc: fn<a: Num x, b: Flurb> *a, *b -> *a : external\nstart :: fn do\n    pr(1)\nend\n",
